@@ -2,7 +2,7 @@
 guard normal form, value-sensitive reachability and cut-set guard checks.
 
 Nothing here executes hickory-dns code; everything is computed from the MIR facts."""
-import re
+import json, os, re
 from collections import defaultdict, deque
 
 # ------------------------------------------------------------------ helpers
@@ -37,8 +37,48 @@ def strip_generics(p):
     return p
 
 
-def closure_roles(crates):
-    """old stripped closure path -> role-based path, from the construction site of each closure"""
+_NOISE = re.compile(r'(^|::)(fmt|Arguments|Argument|Callsite|DefaultCallsite|FieldSet|Interest|LevelFilter|Metadata|Event|ValueSet|__macro_support|field|'
+                    r'Try|FromResidual|Deref|DerefMut|Clone|Into|From|Borrow|AsRef|IntoIterator|IntoFuture|Pin|Future|future)(<[^>]*>)?(>)?::')
+
+
+def closure_tokens(body):
+    """content tokens of a closure body (callee names without tracing/plumbing noise, field names): used only to tell
+    same-role sibling closures apart, never as a verdict"""
+    toks = set()
+    for b in body['blocks']:
+        if b.get('cleanup'):
+            continue
+        t = b['t']
+        if t[0] == 'call' and 'op' not in t[1]:
+            nm = _strip(t[1].get('res') or t[1].get('def', ''))
+            if '{closure' in nm.rsplit('::', 1)[-1]:
+                continue
+            l2 = '::'.join(nm.split('::')[-2:])
+            if not _NOISE.search('::' + l2) and not _NOISE.search(nm):
+                toks.add(l2)
+
+        def walk(x):
+            if isinstance(x, list):
+                for y in x:
+                    if isinstance(y, str) and len(y) > 2 and y[0] == '.' and not y[1:].isdigit() and not y.startswith('.cap:'):
+                        toks.add(y)
+                    else:
+                        walk(y)
+        for st in b['s']:
+            walk(st[1:3])
+    return sorted(toks)
+
+
+def closure_roles(crates, pins=None):
+    """old stripped closure path -> role-based path, from the construction site of each closure.
+    pins: {role-based path: content tokens} of closures the rules anchor on; among same-role siblings the closure whose
+    tokens are most similar to the pinned ones gets the pinned name (so a new same-role closure does not shift it)"""
+    pins = pins or {}
+    bodies = {}
+    for doc in crates.values():
+        for rawp, meta in doc['fns'].items():
+            if meta.get('body') and '{closure#' in rawp:
+                bodies.setdefault(_strip(rawp), meta['body'])
     info = {}     # old path -> (parent old path, N, role or None)
     for doc in crates.values():
         for rawp, meta in doc['fns'].items():
@@ -80,20 +120,59 @@ def closure_roles(crates):
     for cp, (parent, n, role) in info.items():
         if role is not None:
             groups[(parent, role)].append((n, cp))
-    local = {}
-    for (parent, role), lst in groups.items():
-        for k, (n, cp) in enumerate(sorted(lst)):
-            local[cp] = f'{{closure@{role}#{k}}}'
     out = {}
-    for cp in sorted(info, key=lambda x: x.count('::{closure#')):
-        parent = info[cp][0]
-        seg = local.get(cp)
+    done_groups = set()
+
+    def assign(parent, role):
+        """names for the same-role closures of one parent (parent already renamed)"""
+        lst = sorted(groups[(parent, role)])
         np_ = out.get(parent, parent)
-        if seg is None:
+        names = [f'{np_}::{{closure@{role}#{k}}}' for k in range(len(lst))]
+        order = [cp for n, cp in lst]
+        # pinned names beyond the current sibling count cannot be placed; pins for this parent/role:
+        prefix = f'{np_}::{{closure@{role}#'
+        want = sorted((nm for nm in pins if nm.startswith(prefix) and nm.count('::{closure') == prefix.count('::{closure')),
+                      key=lambda x: int(re.search(r'#(\d+)\}$', x).group(1)))
+        if len(lst) > 1 and want:
+            free = list(order)
+            taken = {}
+            for nm in want:
+                if not free:
+                    break
+                pt = set(pins[nm])
+                best, bs = None, -1.0
+                for cp in free:
+                    ct = set(closure_tokens(bodies[cp])) if cp in bodies else set()
+                    u = len(pt | ct)
+                    sc = (len(pt & ct) / u) if u else 1.0
+                    if sc > bs + 1e-9:
+                        best, bs = cp, sc
+                taken[nm] = best
+                free.remove(best)
+            used = set(taken)
+            rest = [nm for nm in names if nm not in used]
+            extra_k = len(names)
+            for cp in free:
+                if rest:
+                    taken[rest.pop(0)] = cp
+                else:
+                    taken[f'{np_}::{{closure@{role}#{extra_k}}}'] = cp
+                    extra_k += 1
+            for nm, cp in taken.items():
+                out[cp] = nm
+        else:
+            for nm, cp in zip(names, order):
+                out[cp] = nm
+    for cp in sorted(info, key=lambda x: x.count('::{closure#')):
+        parent, n, role = info[cp]
+        if role is None:
+            np_ = out.get(parent, parent)
             if np_ != parent:
                 out[cp] = np_ + cp[len(parent):]
             continue
-        out[cp] = np_ + '::' + seg
+        if (parent, role) not in done_groups:
+            done_groups.add((parent, role))
+            assign(parent, role)
     return out
 
 
@@ -593,15 +672,19 @@ def lift_capture(t):
 
 # ------------------------------------------------------------------ program
 class Program:
-    def __init__(self, crates):
+    def __init__(self, crates, pins=None):
         self.crates = crates
+        if pins is None:
+            pp = os.path.join(os.path.dirname(os.path.dirname(os.path.abspath(__file__))), 'rules', 'closure_pins.json')
+            pins = json.load(open(pp)) if os.path.exists(pp) else {}
+        self.pins = pins
         self.fns = {}
         self.adts = {}
         self.impls = []
         self.raw2norm = {}
         self.stats = {'bodies': 0, 'calls': 0, 'resolved': 0, 'asserts': 0}
         CLOSURE_RENAME.clear()
-        self.closure_rename = closure_roles(crates)
+        self.closure_rename = closure_roles(crates, self.pins)
         self.activate()
         for cname, doc in crates.items():
             for p, a in doc['adts'].items():
